@@ -438,29 +438,45 @@ Qed.
 (* the literal *)
 Definition lit_char (c : N) : Prop := accepted_char c = true /\ c <> 32%N.
 
-Lemma lit_class_iff c : lit_class rad50_table c = true <-> lit_char c.
+Definition lit_members : list N :=
+  filter (fun x => negb (N.eqb x 32)) rad50_table ++ map ascii_lower (filter (fun x => negb (N.eqb x 32)) rad50_table).
+
+Lemma lit_class_members c : lit_class rad50_table c = true -> In c lit_members.
 Proof.
-  unfold lit_char. split.
-  - intros H.
-    assert (A : forallb (fun x => accepted_char x && negb (N.eqb x 32))
-                  (filter (fun x => negb (N.eqb x 32)) rad50_table ++ map ascii_lower (filter (fun x => negb (N.eqb x 32)) rad50_table)) = true)
-      by (vm_compute; reflexivity).
-    rewrite forallb_forall in A.
-    assert (Hin : In c (filter (fun x => negb (N.eqb x 32)) rad50_table ++ map ascii_lower (filter (fun x => negb (N.eqb x 32)) rad50_table))).
-    { unfold lit_class in H. apply orb_prop in H. apply in_or_app. destruct H as [H|H]; [left|right];
-      apply existsb_exists in H; destruct H as [x [Hx E]]; apply N.eqb_eq in E; subst; exact Hx. }
-    specialize (A c Hin). apply andb_prop in A. destruct A as [A1 A2]. split; [exact A1|].
-    apply negb_true_iff in A2. apply N.eqb_neq in A2. exact A2.
-  - intros [H Hn]. pose proof (accepted_char_ascii _ H) as Hlt.
-    assert (A : forallb (fun x => implb (accepted_char x && negb (N.eqb x 32)) (lit_class rad50_table x))
-                  (map N.of_nat (seq 0 128)) = true) by (vm_compute; reflexivity).
-    rewrite forallb_forall in A.
-    assert (Hin : In c (map N.of_nat (seq 0 128))).
-    { apply in_map_iff. exists (N.to_nat c). split; [apply N2Nat.id | apply in_seq; lia]. }
-    specialize (A c Hin). cbv beta in A.
-    destruct (lit_class rad50_table c); [reflexivity|].
-    rewrite H in A. destruct (N.eqb c 32) eqn:E; [apply N.eqb_eq in E; congruence|]. discriminate A.
+  unfold lit_class, lit_members. intros H. apply orb_prop in H. apply in_or_app.
+  destruct H as [H|H]; [left|right];
+    apply existsb_exists in H; destruct H as [x [Hx E]]; apply N.eqb_eq in E; subst; exact Hx.
 Qed.
+
+Lemma lit_members_ok : forallb (fun x => accepted_char x && negb (N.eqb x 32)) lit_members = true.
+Proof. vm_compute. reflexivity. Qed.
+
+Lemma lit_class_sound c : lit_class rad50_table c = true -> lit_char c.
+Proof.
+  intros H. apply lit_class_members in H. pose proof lit_members_ok as A.
+  rewrite forallb_forall in A. specialize (A c H). apply andb_prop in A. destruct A as [A1 A2].
+  split; [exact A1|]. apply negb_true_iff in A2. apply N.eqb_neq in A2. exact A2.
+Qed.
+
+Definition lit_complete_at (x : N) : bool :=
+  implb (accepted_char x && negb (N.eqb x 32)) (lit_class rad50_table x).
+
+Lemma lit_complete_all : forallb lit_complete_at (map N.of_nat (seq 0 128)) = true.
+Proof. vm_compute. reflexivity. Qed.
+
+Lemma lit_class_complete c : lit_char c -> lit_class rad50_table c = true.
+Proof.
+  intros [H Hn]. pose proof (accepted_char_ascii _ H) as Hlt.
+  pose proof lit_complete_all as A. rewrite forallb_forall in A.
+  assert (Hin : In c (map N.of_nat (seq 0 128))).
+  { apply in_map_iff. exists (N.to_nat c). split; [apply N2Nat.id | apply in_seq; lia]. }
+  specialize (A c Hin). unfold lit_complete_at in A.
+  destruct (lit_class rad50_table c); [reflexivity|].
+  rewrite H in A. destruct (N.eqb c 32) eqn:E; [apply N.eqb_eq in E; congruence|]. discriminate A.
+Qed.
+
+Lemma lit_class_iff c : lit_class rad50_table c = true <-> lit_char c.
+Proof. split; [apply lit_class_sound | apply lit_class_complete]. Qed.
 
 Lemma take_while_app p s rest :
   Forall (fun c => p c = true) s -> match rest with [] => True | c :: _ => p c = false end ->
